@@ -23,6 +23,7 @@ import NanoVerif.Model.ReuseSeq
 import NanoVerif.Model.DisjointSet
 import NanoVerif.Model.GlueSvg
 import NanoVerif.Model.GradientParse
+import NanoVerif.Model.VarModel
 /-
 Correspondence driver.  One JSON object per input line: {"op": ..., ...}; one JSON object per
 output line.  Run: `lake env lean --run Driver.lean < ops.jsonl`.
@@ -448,6 +449,34 @@ def dispatch (op : String) (j : Json) : Except String Json := do
       let t ← getTree (← field j "tree")
       let l := t.glyphs Aff.id
       return obj [("dfs", Json.arr (l.map fun (n, a) => Json.arr #[Json.str n, jAff a]).toArray)]
+  | "var-model" =>
+      let locs ← (← getArr (← field j "locs")).mapM getQs
+      let masters ← (← getArr (← field j "masters")).mapM getQs
+      let evals ← (← getArr (← field j "evals")).mapM getQs
+      let user ← match fieldOpt j "user" with
+        | some u => do (← getArr u).mapM getQs
+        | none => pure locs
+      let sups := Var.supports locs
+      let S := Var.scalarTable locs
+      let jReg := fun (r : Var.Region) => Json.arr #[jQ r.lower, jQ r.peak, jQ r.upper]
+      let deltas := masters.map (Var.getDeltas id S)
+      let one := match locs with
+        | l :: _ => if l.length == 1 then some (Var.supportsGo1 [] (locs.map (fun (x : List Q) => x.getD 0 0))) else none
+        | [] => none
+      return obj [("supports", Json.arr (sups.map fun s => Json.arr (s.map jReg).toArray).toArray),
+                  ("deltas", Json.arr (deltas.map jQs).toArray),
+                  ("at_masters", Json.arr (masters.map fun ms => jQs (locs.map (Var.valueAt locs ms))).toArray),
+                  ("values", Json.arr (masters.map fun ms => jQs (evals.map (Var.valueAt locs ms))).toArray),
+                  ("sorted", Json.arr ((Var.sortLocs user).map jQs).toArray),
+                  ("one_axis", match one with | some l => Json.arr (l.map jReg).toArray | none => Json.null)]
+  | "normalize-value" =>
+      let v ← getQ (← field j "v")
+      let t ← getQs (← field j "triple")
+      match t with
+      | [lo, d, hi] => match Var.normalizeValue v lo d hi with
+          | some r => return obj [("r", jQ r)]
+          | none => return obj [("err", Json.str "ValueError")]
+      | _ => throw "triple"
   | "parse-linear" =>
       let vb ← getRect (← field j "vb")
       let asc ← getQ (← field j "asc")
